@@ -470,10 +470,69 @@ def r165(ctx, fx):
         ctx.fail_closed(rid, "fewer than 6 reads of LineCol.column found in the code map, the analysis and the source map (%d)" % n_reads)
 
 
+def r166(ctx, fx, rid_name="R16.6"):
+    rid = ctx.rule(rid_name, "what is recorded as a usage depends on the program, not on what the code generator remembers: whether Analysis::add_symbol_usage / add_definition "
+                   "is called is decided by the usage itself, the options and the symbol table — never by another field of the context (a memo of what was `already "
+                   "recorded` survives the pass, the usage database does not: from the second pass on the memo answers and the final database misses the entry; rename, "
+                   "references and highlights then leave occurrences out)")
+    from .c11 import _anc_walk
+    ALLOWED = ("options", "symbols", "analysis")
+    n = 0
+    for f in sorted(fx.all_fns("mos_core"), key=lambda f: f.path):
+        if f.kind == "closure" or not f.d.get("hir") or "::tests::" in f.path or not f.path.startswith("mos_core::codegen::CodegenContext::"):
+            continue
+        body = f.hir["body"]
+        lets = {}
+        for y in lib.hwalk(body):
+            if y.get("k") in ("let", "letx") and "init" in y:
+                for q in lib.hwalk(y["pat"]):
+                    if q.get("k") == "bind":
+                        lets.setdefault(q["name"], []).append(y["init"])
+
+        def state_fields(e, depth=0, seen=None):
+            """fields of `self` (other than the allowed ones) that the expression reads, through locals"""
+            seen = seen if seen is not None else set()
+            out = set()
+            for y in lib.hwalk(e):
+                if y.get("k") == "field" and lib.hpath(lib.strip(y.get("a", {}))) in ("self", "s") and y.get("name") not in ALLOWED:
+                    if "CodegenContext" in str(lib.strip(y.get("a", {})).get("ty", "")) + str(lib.strip(y.get("a", {})).get("aty", "")):
+                        out.add(y["name"])
+                if y.get("k") == "path" and depth < 3:
+                    nm = lib.hpath(y)
+                    if nm in lets and nm not in seen:
+                        seen.add(nm)
+                        for i in lets[nm]:
+                            out |= state_fields(i, depth + 1, seen)
+            return out
+        for x, anc in _anc_walk(body):
+            if not (x.get("k") == "mcall" and x.get("name") in ("add_symbol_usage", "add_definition", "set_definition") and
+                    "Analysis" in str(x.get("path", ""))):
+                continue
+            n += 1
+            bad = set()
+            for p_, key in anc:
+                if p_.get("k") == "if" and key in ("then", "else"):
+                    bad |= state_fields(p_["cond"])
+                if p_.get("k") == "match" and key == "arms":
+                    bad |= state_fields(p_["scrut"])
+                    for a in p_["arms"]:
+                        if a.get("guard") is not None and any(y is x for y in lib.hwalk(a["body"])):
+                            bad |= state_fields(a["guard"])
+            key = "%s|%s#%d" % (f.path, x.get("name"), n)
+            ctx.inst(rid, key, sample={"fn": f.path, "line": x.get("ln"), "depends_on_context_fields": sorted(bad)})
+            if bad:
+                ctx.finding(rid, key, "%s records a usage only if the context's %s allow it: what the code generator remembers from earlier (passes, iterations) decides "
+                            "what the language server knows about the program — occurrences that were `seen before` are missing from the final usage database" % (
+                                f.path.rsplit("::", 1)[-1], " / ".join("`%s`" % b for b in sorted(bad))), "%s:%s" % (f.file, x.get("ln")))
+    if n < 2:
+        ctx.fail_closed(rid, "fewer than 2 calls that feed the usage database found in CodegenContext (%d)" % n)
+
+
 def run(ctx):
     fx = ctx.facts
     cg = lib.CallGraph(fx)
     r165(ctx, fx)
+    r166(ctx, fx)
     r161(ctx, fx)
     r162(ctx, fx, cg)
     r163(ctx, fx)
